@@ -14,12 +14,12 @@ import (
 )
 
 // two cleanups of one invocation: one falsifies, the other one skips or is rejected
-var c02TwoCleanups = []Beh{BCleanupSkipCleanupPanic, BCleanupSkipCleanupFatal, BCleanupRejectCleanupPanic, BCleanupPanicCleanupSkip, BCleanupErrorfCleanupSkip, BCleanupPanicThenSkip, BCleanupPanicThenReject, BCleanupNilMapThenSkip}
+var c02TwoCleanups = []Beh{BCleanupSkipCleanupPanic, BCleanupSkipCleanupFatal, BCleanupRejectCleanupPanic, BCleanupPanicCleanupSkip, BCleanupErrorfCleanupSkip, BCleanupPanicThenSkip, BCleanupPanicThenReject, BCleanupNilMapThenSkip, BCleanupErrorfCleanupSkipThenSkip, BErrorfThenPanic, BCleanupFatalThenPanic}
 
 func c02Alphabet(ctx string) []Beh {
 	switch ctx {
 	case "custom-guarded": // only what is signalled through the methods of T survives a recover() in user code
-		return []Beh{BFatalA, BFatal, BFailNowC, BErrorf, BError, BFail, BCleanupErrorf, BCleanupFatal, BErrorfThenFatalA, BErrorEmpty, BPass, BCleanupPass}
+		return []Beh{BFatalA, BFatal, BFailNowC, BErrorf, BError, BFail, BCleanupErrorf, BCleanupFatal, BErrorfThenFatalA, BErrorEmpty, BErrorfReject, BCleanupErrorfSkip, BErrorfSkip, BErrorfThenPanic, BCleanupFatalThenPanic, BCleanupErrorfCleanupSkipThenSkip, BPass, BCleanupPass}
 	case "body", "custom", "custom2":
 		return append(append(append([]Beh{}, AllFalsifying...), c02TwoCleanups...), BSkip, BSkipNow, BSkipf, BPass, BCleanupPass, BCleanupSkip)
 	default: // action, invariant: skipping there is C08's business
